@@ -119,6 +119,8 @@ class Escapes:
             if isinstance(n, (ast.FunctionDef, ast.AsyncFunctionDef, ast.Lambda)) and n is not f.node:
                 continue
             if isinstance(n, ast.Raise):
+                if getattr(n, '_implicit', False):
+                    continue        # written out by the normal form for a d[key] lookup: implicit in the source
                 if n.exc is None:
                     # bare re-raise: propagates what the enclosing handler caught
                     for a in ancestors(n):
